@@ -167,9 +167,23 @@ free_table(void)
     na = ne = 0;
 }
 
+/* `keep`: the description is edited in place and initialised again - what register_init() or other operations
+ * left behind in the structures (entry -> area link and offset, touched marks, the run of entries recorded in each
+ * area, the table's flags, the storage content of areas whose size stays) is still there, as it is when an
+ * application changes its table and calls register_init() a second time */
 static bool
-parse_table(const char *be, char *as, char *es)
+parse_table(const char *be, char *as, char *es, bool keep)
 {
+    static RegisterArea old_areas[MAXA + 1];
+    static RegisterEntry old_entries[MAXE + 1];
+    RegisterAtom *old_store[MAXA];
+    size_t old_na = na, old_ne = ne;
+    uint16_t old_flags = table.flags;
+    AreaHandle old_tareas = table.areas;
+    RegisterHandle old_tentries = table.entries;
+    memcpy(old_areas, areas, sizeof areas);
+    memcpy(old_entries, entries, sizeof entries);
+    for (size_t i = 0; i < MAXA; i++) { old_store[i] = keep ? store[i] : NULL; if (keep) store[i] = NULL; }
     free_table();
     memset(areas, 0, sizeof areas);
     memset(entries, 0, sizeof entries);
@@ -226,6 +240,23 @@ parse_table(const char *be, char *as, char *es)
     memset(&table, 0, sizeof table);
     table.area = areas;
     table.entry = entries;
+    if (keep) {
+        table.flags = old_flags;
+        table.areas = old_tareas;
+        table.entries = old_tentries;
+        for (size_t i = 0; i < na && i < old_na; i++) {
+            areas[i].entry = old_areas[i].entry;
+            if (areas[i].size == old_areas[i].size && old_store[i])
+                memcpy(store[i], old_store[i], areas[i].size * sizeof(RegisterAtom));
+        }
+        for (size_t i = 0; i < ne && i < old_ne; i++) {
+            /* the link points into areas[] (same array): keep the index */
+            entries[i].area = old_entries[i].area;
+            entries[i].offset = old_entries[i].offset;
+            entries[i].flags = old_entries[i].flags;
+        }
+        for (size_t i = 0; i < MAXA; i++) free(old_store[i]);
+    }
     register_make_bigendian(&table, be[0] == '1');
     return true;
 }
@@ -270,7 +301,9 @@ harness_op(int argc, char **argv)
 {
     const char *op = argv[0];
     if (strcmp(op, "rt.table") == 0 && argc == 4) {
-        printf(parse_table(argv[1], argv[2], argv[3]) ? "ok" : "bad-op");
+        printf(parse_table(argv[1], argv[2], argv[3], false) ? "ok" : "bad-op");
+    } else if (strcmp(op, "rt.edit") == 0 && argc == 4) {
+        printf(parse_table(argv[1], argv[2], argv[3], true) ? "ok" : "bad-op");
     } else if (strcmp(op, "rt.init") == 0) {
         RegisterInit r = register_init(&table);
         bool init = (table.flags & REG_TF_INITIALISED) != 0;
